@@ -147,6 +147,111 @@ def gen_lib(rng, big=False):
             'meta': {'truth_molecules': len(truth), 'hist': hist, 'order': order}}
 
 
+def gen_truth_lib(rng, eject, big=False):
+    """ground-truth stream: the generator chooses the TRUE (cell, contig, cut site, strand, UMI) of every fragment;
+    PCR copies differ in soft clip at the read start (both strands), R1 length, R2 end and input duplicate flags.
+    distance 0, radius 0, no cap: the molecules must be exactly the truth classes.  With eject != None the real
+    ejection runs (check_eject_every small, cache_size 1000, input ordered like a coordinate-sorted BAM read
+    by the mate-pair iterator: by contig and the start of the later mate); forward inserts stay below
+    cache_size/2, reverse-strand R1 may have a long insert (R2 far upstream; its span END stays at the stream position)"""
+    cls = rng.choice([0, 1, 1, 2, 2])
+    cfg = {'cls': cls, 'mol': None, 'd': 0, 'r': 0, 'cap': None, 'yinv': True, 'yover': True}
+    if eject is not None:
+        cfg['eject'] = eject
+        cfg['cache'] = 1000
+    ncell = rng.randint(1, 8 if big else 3)
+    npos = rng.randint(1, 40 if big else 8)
+    ncontig = rng.randint(1, 3)
+    trimmed = rng.random() < 0.5
+    spacing = 1500 if cls == 0 else 37
+    positions = rng.sample(range(2000, 2000 + spacing * 60, spacing), npos)
+    nclass_max = npos * 2 * ncell * 6 + 10
+    umis = set()
+    while len(umis) < min(nclass_max, 3000):
+        umis.add(rand_seq(rng, 6))
+    umis = sorted(umis)
+    rng.shuffle(umis)
+    reads, n, classes = [], 0, 0
+    for pos in positions:
+        # the same UMIs are reused by the twins of a position (other strand / contig / cell)
+        pool = [umis.pop() for _ in range(rng.randint(1, 6 if big else 3))]
+        sites = [(CONTIGS[rng.randrange(ncontig)], rng.random() < 0.5)]
+        if rng.random() < 0.4:
+            sites.append((sites[0][0], not sites[0][1]))
+        if ncontig > 1 and rng.random() < 0.3:
+            sites.append((rng.choice([c for c in CONTIGS[:ncontig] if c != sites[0][0]]), sites[0][1]))
+        for contig, rev in sites:
+            for cell in rng.sample(range(ncell), rng.randint(1, min(ncell, 3))):
+                for umi in rng.sample(pool, rng.randint(1, len(pool))):
+                    classes += 1
+                    for c in range(rng.randint(1, 5 if big else 4)):
+                        clip = rng.choice([0, 0, 1, 2, 3])
+                        L = 20 if cls == 0 else rng.randint(20, 40)
+                        r1 = r1_part(cls, pos, rev, clip if cls != 0 else 0, trimmed, True, rng, L=L)
+                        r2 = None
+                        if rng.random() < 0.7:
+                            off = rng.randint(25, 120)
+                            if rev and cls != 0 and rng.random() < 0.15:
+                                off = rng.randint(600, 1900)      # long insert, R2 far upstream of a reverse R1
+                            r2 = r2_part(r1, off, False, rng)
+                        reads.append({'name': 'q%d' % n, 'sample': 'CELL_%d' % cell, 'umi': umi, 'contig': contig, 'r1': r1, 'r2': r2,
+                                      'dup': rng.random() < 0.3, 'qcfail': False, 'rc': (rng.randint(0, 3) if rng.random() < 0.3 else None),
+                                      'mx': ('scCHIC384C8U3' if (cls == 2 and trimmed) else None),
+                                      'truth': [cell, contig, pos, 1 if rev else 0, umi]})
+                        n += 1
+    if eject is None and rng.random() < 0.6:
+        rng.shuffle(reads)
+    else:
+        rng.shuffle(reads)
+        reads.sort(key=lambda s: (s['contig'], max(s['r1']['start'], s['r2']['start'] if s['r2'] else 0)))
+    return {'cfg': cfg, 'reads': reads, 'retag': False, 'bam': False, 'truth': True,
+            'meta': {'truth_molecules': classes, 'eject': eject}}
+
+
+def truth_violations(lib, res):
+    """C06_exact / C06_one_primary / C06_tags instantiated with the GENERATOR's keys (not the implementation's accessors)"""
+    out = []
+    if res.get('error'):
+        return [('truth:error', 'the iterator raised %s' % res['error'])]
+    truth = {}
+    for s in lib['reads']:
+        truth.setdefault(tuple(s['truth']), []).append(s['name'])
+    tkey = {s['name']: tuple(s['truth']) for s in lib['reads']}
+    spec = {s['name']: s for s in lib['reads']}
+    cm = canon_impl_mols(res['pass1'])
+
+    def show(names):
+        return [{'name': x, 'truth(cell,contig,site,strand,umi)': list(tkey[x]), 'R1': '%s:%d %s %s' % (
+            spec[x]['contig'], spec[x]['r1']['start'], '-' if spec[x]['r1']['rev'] else '+', spec[x]['r1']['cigar'])} for x in names]
+    bad = [f['name'] for f in res['frags'] if not f['valid']]
+    if bad:
+        out.append(('truth:invalid', 'fragments simulated as valid were rejected: %r' % show(bad[:3])))
+    got = [[x[0] for x in m[1]] for m in cm]
+    for names in got:
+        ks = set(tkey[x] for x in names)
+        if len(ks) > 1:
+            out.append(('truth:merged', 'one molecule holds fragments of %d different true molecules: %r' % (len(ks), show(names[:4]))))
+    where = {}
+    for i, names in enumerate(got):
+        for x in names:
+            where.setdefault(tkey[x], set()).add(i)
+    for k, idx in where.items():
+        if len(idx) > 1:
+            parts = [got[i] for i in sorted(idx)]
+            out.append(('truth:split', 'the PCR copies of one true molecule %r were split into %d molecules: %r'
+                        % (list(k), len(idx), [show(p_[:3]) for p_ in parts[:3]])))
+    for k, names in truth.items():
+        flags = {x[0]: x for m in cm for x in m[1]}
+        nd = [x for x in names if x in flags and flags[x][2] is False]
+        if len(nd) != 1:
+            out.append(('truth:primary', 'true molecule %r (%d fragments) has %d fragments not flagged duplicate: %r'
+                        % (list(k), len(names), len(nd), show(nd[:4]))))
+        if any(x in flags and (flags[x][3] != len(names) or flags[x][4] != len(names)) for x in names) and not out:
+            out.append(('truth:tags', 'true molecule %r has %d fragments but af/TF %r'
+                        % (list(k), len(names), [(flags[x][3], flags[x][4]) for x in names if x in flags][:4])))
+    return out
+
+
 def seq_lib(cfg, types, seq, tag):
     """a library from a sequence of fragment types (exhaustive small scopes); deterministic sequences"""
     import random
@@ -302,6 +407,10 @@ def spec_violations(lib, res):
     """list of (key, text).  keys are stable identities of the violated clause."""
     cfg = lib['cfg']
     out = []
+    if lib.get('truth'):
+        out += truth_violations(lib, res)
+        if cfg.get('eject') is not None:
+            return out          # the clauses below assume the no-ejection arrival-order semantics (C07 owns the schedule)
     if res.get('error'):
         if not (cfg['cap'] is not None and cfg['cap'] <= 0):
             out.append(('error', 'the iterator raised %s' % res['error']))
@@ -472,6 +581,12 @@ class Prop(fw.PropBase):
         else:
             for lib in libs[:12]:
                 lib['bam'] = True
+        for _ in range(90 if quick else 1200):
+            for eject in (None, 0, 2):
+                libs.append(gen_truth_lib(self.rng, eject, big=False))
+        for _ in range(4 if quick else 80):
+            for eject in (None, 0, 3):
+                libs.append(gen_truth_lib(self.rng, eject, big=True))
         libs += exhaustive_libs(self.tier)
         return libs
 
@@ -497,7 +612,7 @@ class Prop(fw.PropBase):
         nontrivial = set()
         stats = {'libraries': len(libs), 'fragments': nfr, 'with_input_duplicate_flags': 0, 'with_invalid_fragments': 0,
                  'with_cap': 0, 'overflow_events': 0, 'radius_gt0': 0, 'retag_histories': 0, 'bam_round_trips': 0,
-                 'implementation_raised': 0, 'molecules': 0, 'molecules_ge2': 0, 'strand_or_contig_twins': 0, 'umi_tie_events': 0}
+                 'implementation_raised': 0, 'truth_libraries': 0, 'truth_with_real_ejection': 0, 'truth_soft_clipped_reverse_R1': 0, 'molecules': 0, 'molecules_ge2': 0, 'strand_or_contig_twins': 0, 'umi_tie_events': 0}
         for l, r in zip(libs, res):
             c = l['cfg']
             hist_cls[CLS[c['cls']]] = hist_cls.get(CLS[c['cls']], 0) + 1
@@ -505,6 +620,10 @@ class Prop(fw.PropBase):
             b = min(len(l['reads']) // 10 * 10, 200)
             hist_size['%d-%d' % (b, b + 9)] = hist_size.get('%d-%d' % (b, b + 9), 0) + 1
             stats['with_cap'] += c['cap'] is not None
+            stats['truth_libraries'] += bool(l.get('truth'))
+            stats['truth_with_real_ejection'] += bool(l.get('truth')) and c.get('eject') is not None
+            if l.get('truth'):
+                stats['truth_soft_clipped_reverse_R1'] += sum(1 for s_ in l['reads'] if s_['r1']['rev'] and 'S' in s_['r1']['cigar'])
             stats['radius_gt0'] += (c['r'] > 0 and c['cls'] != 1)
             stats['retag_histories'] += bool(l.get('retag'))
             if r.get('error'):
@@ -540,7 +659,10 @@ class Prop(fw.PropBase):
                     'MoleculeIterator(check_eject_every=None) + write_tags; plus ALL sequences up to a small length over a fixed alphabet '
                     'of fragment types (single site; UMIs AAA/AAT/ATT/ANA, other strand, invalid; CHIC offsets 0..3; plain other contig/'
                     'strand/cell) for d, radius and cap variants.  non-trivial = at least one molecule with >= 2 fragments and >= 2 '
-                    'molecules; distinct by hash of the abstract library (cfg + abstract fragments)',
+                    'molecules; distinct by hash of the abstract library (cfg + abstract fragments).  TRUTH stream: libraries whose true '
+                    '(cell, contig, cut site, strand, UMI) per fragment is chosen by the generator (soft clips at the read start on both '
+                    'strands, R1 lengths, R2 ends, long reverse inserts, input flags), distance 0 / radius 0: molecules of the real iterator '
+                    'must be exactly the truth classes with one primary each - without ejection and with check_eject_every 0/2/3, cache 1000',
             'stats': stats, 'fragment_class_histogram': hist_cls, 'umi_distance_histogram': hist_d, 'library_size_histogram': hist_size,
             'samples': [{'cfg': libs[i]['cfg'], 'reads': libs[i]['reads'][:6], 'n_reads': len(libs[i]['reads']),
                          'impl_molecules': canon_impl(res[i])[:4]} for i in sample_idx],
@@ -579,6 +701,8 @@ class Prop(fw.PropBase):
                 if exp != canon_impl(r):
                     dis.append({'lib': i, 'what': 'implementation raised', 'impl': r['error'], 'model': exp})
                 continue
+            if l['cfg'].get('eject') is not None:
+                continue        # real ejection schedule: compared with the generator's truth only (spec_violations)
             exp = canon_model(mo[i], r['frags'])
             got = canon_impl(r)
             if exp != got:
@@ -650,10 +774,10 @@ class Prop(fw.PropBase):
         for key, (lib, text) in sorted(best.items()):
             lib, text = self.shrink(lib, key, text)
             self.witnesses.append({'key': key, 'what': text,
-                                   'input': {'cfg': lib['cfg'], 'reads': lib['reads'], 'retag': lib.get('retag', False)},
+                                   'input': {'cfg': lib['cfg'], 'reads': lib['reads'], 'retag': lib.get('retag', False), 'truth': lib.get('truth', False)},
                                    'expected': 'see Props/C06.v: ' + {'tags': 'C06_one_primary', 'sound': 'C06_sound', 'exact': 'C06_exact',
                                                                        'partition': 'C06_partition', 'retag': 'C06_retag_idempotent',
-                                                                       'error': 'C06_run_total', 'cap': 'C06_cap', 'greedy': 'C06_greedy', 'exact_cap': 'C06_exact_cap'}.get(key.split(':')[0], 'C06')})
+                                                                       'error': 'C06_run_total', 'truth': 'C06_exact / C06_one_primary / C06_tags with the generator\'s truth keys', 'cap': 'C06_cap', 'greedy': 'C06_greedy', 'exact_cap': 'C06_exact_cap'}.get(key.split(':')[0], 'C06')})
 
     def shrink(self, lib, key, text):
         """delta debugging on the read list, batches of candidates through the real implementation"""
